@@ -456,6 +456,8 @@ impl CoreInner {
 	fn flush_oldest_immutable_to_sst(&self) -> Result<Option<Arc<Table>>> {
 		// One flusher at a time: the entry is picked, written and removed from
 		// the queue under this lock, so a concurrent flusher sees the next one.
+		#[cfg(surrealkv_verif)]
+		crate::verif::acquire_point("flush:lock", &|| self.flush_lock.is_locked());
 		let _flushing = self.flush_lock.lock();
 
 		// Get the oldest immutable entry (clone to release lock before I/O)
@@ -630,6 +632,8 @@ impl CoreInner {
 
 		// Step 3: Flush the immutable memtable to disk and update manifest, unless
 		// a concurrent flusher took it from the queue in the meantime
+		#[cfg(surrealkv_verif)]
+		crate::verif::acquire_point("flush:lock", &|| self.flush_lock.is_locked());
 		let _flushing = self.flush_lock.lock();
 		let still_queued = self.immutable_memtables.read()?.iter().any(|e| e.table_id == table_id);
 		if !still_queued {
